@@ -1351,3 +1351,68 @@ pub fn c12(a: &Analysis, twin: &Analysis, probe_from: Option<usize>) -> Vec<Viol
     }
     out
 }
+
+/// C11 — identifiers on the wire: non-zero (the reference decoder already rejects 0), unique
+/// among outstanding operations (broker view: outstanding from the request's first byte until
+/// the completing acknowledgement is *sent*), subscription identifiers never reused.
+pub fn c11(a: &Analysis) -> Vec<Violation> {
+    let mut out = Vec::new();
+    for (class, what) in &a.id_violations {
+        out.push(v("C11", class.clone(), what.clone()));
+    }
+    for p in real_panics(a) {
+        out.push(v("C11", format!("C11/panic/{}", panic_site(&p.2)), format!("{:?} panicked: {}", p.1, p.2)));
+    }
+    for x in wire_wellformed(a, "C11") {
+        let class = if x.message.contains("identifier 0") { "C11/zero-id".to_string() } else { x.class.clone() };
+        out.push(Violation { class, ..x });
+    }
+    #[derive(Clone, Copy)]
+    enum E<'a> {
+        Req(&'a WirePkt),
+        Done(u16),
+    }
+    for c in 0..a.conns.len() {
+        let mut evs: Vec<(usize, E)> = Vec::new();
+        for w in a.wire.iter().filter(|w| w.conn == c) {
+            match &w.pkt {
+                Packet::Publish(p) if p.qos > 0 && !p.dup => evs.push((w.seq_first, E::Req(w))),
+                Packet::Subscribe(_) | Packet::Unsubscribe(_) => evs.push((w.seq_first, E::Req(w))),
+                _ => {}
+            }
+        }
+        for i in a.inbound.iter().filter(|i| i.p.conn == c) {
+            match &i.p.pkt {
+                Some(Packet::Puback(x)) | Some(Packet::Pubcomp(x)) => evs.push((i.p.seq, E::Done(x.pid))),
+                Some(Packet::Pubrec(x)) if x.reason >= 0x80 => evs.push((i.p.seq, E::Done(x.pid))),
+                Some(Packet::Suback(x)) | Some(Packet::Unsuback(x)) => evs.push((i.p.seq, E::Done(x.pid))),
+                _ => {}
+            }
+        }
+        evs.sort_by_key(|e| e.0);
+        let mut outstanding: BTreeMap<u16, usize> = BTreeMap::new();
+        let mut subs: BTreeSet<u32> = BTreeSet::new();
+        for (_, e) in evs {
+            match e {
+                E::Req(w) => {
+                    let id = w.pkt.pid().unwrap();
+                    if let Some(prev) = outstanding.get(&id) {
+                        out.push(v("C11", "C11/duplicate-id/single-task", format!("packet identifier {id} at wire offset {} while the request at offset {prev} is still outstanding", w.off)));
+                    }
+                    outstanding.insert(id, w.off);
+                    if let Packet::Subscribe(s) = &w.pkt {
+                        for sid in s.props.varints(pid::SUBSCRIPTION_ID) {
+                            if !subs.insert(sid) {
+                                out.push(v("C11", "C11/duplicate-subscription-id", format!("subscription identifier {sid} used by two subscribe() calls")));
+                            }
+                        }
+                    }
+                }
+                E::Done(id) => {
+                    outstanding.remove(&id);
+                }
+            }
+        }
+    }
+    out
+}
